@@ -51,6 +51,9 @@ type r8client struct {
 	isFin    bool        // walking finalize itself
 	readN    map[int]int // read-error value id -> read-count value id
 	bad      map[string]string
+	// helpers of Next (methods of the decoder it calls on itself): the slice fields known empty at every call
+	family      map[*ssa.Function]bool
+	helperEmpty map[*ssa.Function]*stringSet
 }
 
 func (k *r8client) Key(s r8state) string {
@@ -155,6 +158,28 @@ func (k *r8client) Instr(s r8state, in ssa.Instruction) (r8state, bool, []r8stat
 		if sc := c.StaticCallee(); sc != nil {
 			if sc == k.finalize || k.fin[sc] {
 				s.passed = true
+			}
+			if k.isNext && k.family[sc] && len(c.Args) > 0 && len(k.fn.Params) > 0 && c.Args[0] == ssa.Value(k.fn.Params[0]) {
+				// what the caller established about the decoder's fields holds on entry to the helper
+				from, to := "P:"+k.fn.Params[0].Name(), "P:"+sc.Params[0].Name()
+				var tr stringSet
+				for _, key := range s.emptyMem.list() {
+					if strings.HasPrefix(key, from+".") {
+						tr = tr.with(to + key[len(from):])
+					}
+				}
+				if prev, seen := k.helperEmpty[sc]; seen {
+					var both stringSet
+					for _, key := range tr.list() {
+						if prev.has(key) {
+							both = both.with(key)
+						}
+					}
+					tr = both
+				}
+				k.helperEmpty[sc] = &tr
+				// the helper may refill any field
+				s.emptyMem = stringSet{}
 			}
 			if k.isNext && core.FuncName(sc) == "feedUntil" {
 				if s.pending != 0 {
@@ -417,23 +442,65 @@ func R8(pkgs ...string) func(p *core.Prog) *core.Result {
 					r.Fail(kk[:strings.Index(kk, "|")], core.FuncKey(f)+kk[strings.Index(kk, "|"):], p.Pos(f.Pos()), core.FuncKey(f)+" "+msg, "")
 				}
 			}
-			// (b)-(e)
+			// (b)-(e): Next and the methods of the decoder it calls on itself (a refill helper, say)
 			entries++
-			k := &r8client{p: p, fn: next, num: newNumbering(), finalize: fin, fin: finSet, isNext: true}
+			family := map[*ssa.Function]bool{}
+			var famList []*ssa.Function
+			var grow func(f *ssa.Function, depth int)
+			grow = func(f *ssa.Function, depth int) {
+				for _, b := range f.Blocks {
+					for _, in := range b.Instrs {
+						c, ok := in.(*ssa.Call)
+						if !ok {
+							continue
+						}
+						sc := c.Common().StaticCallee()
+						if sc == nil || sc == next || family[sc] || sc.Blocks == nil || sc.Signature.Recv() == nil || next.Signature.Recv() == nil {
+							continue
+						}
+						if namedOf(sc.Signature.Recv().Type()) != namedOf(next.Signature.Recv().Type()) || len(c.Common().Args) == 0 || c.Common().Args[0] != ssa.Value(f.Params[0]) {
+							continue
+						}
+						family[sc] = true
+						famList = append(famList, sc)
+						if depth < 2 {
+							grow(sc, depth+1)
+						}
+					}
+				}
+			}
+			grow(next, 0)
+			k := &r8client{p: p, fn: next, num: newNumbering(), finalize: fin, fin: finSet, isNext: true, family: family, helperEmpty: map[*ssa.Function]*stringSet{}}
 			_, capped := WalkPaths[r8state](k, next.Blocks[0], 0, r8state{}, 400000, nil)
 			if capped {
 				r.Undecided(".NEXT", core.FuncKey(next), "state cap hit")
 			}
-			// the Next function must actually contain a Read and a feedUntil call
+			for _, h := range famList {
+				init := r8state{}
+				if e := k.helperEmpty[h]; e != nil {
+					init.emptyMem = *e
+				}
+				hk := &r8client{p: p, fn: h, num: newNumbering(), finalize: fin, fin: finSet, isNext: true, family: family, helperEmpty: k.helperEmpty}
+				_, capped := WalkPaths[r8state](hk, h.Blocks[0], 0, init, 400000, nil)
+				if capped {
+					r.Undecided(".NEXT", core.FuncKey(h), "state cap hit")
+				}
+				for kk, msg := range hk.bad {
+					k.fail(kk[:strings.Index(kk, "|")], core.FuncName(h)+"|"+kk[strings.Index(kk, "|")+1:], "(in its helper "+core.FuncKey(h)+") "+msg)
+				}
+			}
+			// Next (with its helpers) must actually contain a Read and a feedUntil call
 			hasRead, hasFeed := false, false
-			for _, b := range next.Blocks {
-				for _, in := range b.Instrs {
-					if c, ok := in.(*ssa.Call); ok {
-						if c.Common().IsInvoke() && c.Common().Method.Name() == "Read" {
-							hasRead = true
-						}
-						if sc := c.Common().StaticCallee(); sc != nil && core.FuncName(sc) == "feedUntil" {
-							hasFeed = true
+			for _, g := range append([]*ssa.Function{next}, famList...) {
+				for _, b := range g.Blocks {
+					for _, in := range b.Instrs {
+						if c, ok := in.(*ssa.Call); ok {
+							if c.Common().IsInvoke() && c.Common().Method.Name() == "Read" {
+								hasRead = true
+							}
+							if sc := c.Common().StaticCallee(); sc != nil && core.FuncName(sc) == "feedUntil" {
+								hasFeed = true
+							}
 						}
 					}
 				}
@@ -543,7 +610,7 @@ func (k *finPopClient) Instr(s finPopState, in ssa.Instruction) (finPopState, bo
 	if sc == nil {
 		return s, true, nil
 	}
-	if core.FuncName(sc) == "popState" || core.FuncName(sc) == "popLenState" || (core.FuncName(sc) == "pop" && sc.Signature.Recv() != nil && namedOf(sc.Signature.Recv().Type()) != nil && namedOf(sc.Signature.Recv().Type()).Obj().Name() == "stateStack") {
+	if core.FuncName(sc) == "popState" || core.FuncName(sc) == "popLenState" || (core.FuncName(sc) == "pop" && sc.Signature.Recv() != nil && namedOf(sc.Signature.Recv().Type()) != nil && core.TypeName(namedOf(sc.Signature.Recv().Type())) == "stateStack") {
 		if !s.matched {
 			k.bad = "pops an open parser state at " + k.p.Pos(c.Pos()) + " without having matched its kind: any unfinished value or unterminated container that happens to be open at end of input is silently discarded and the truncated document accepted"
 		}
